@@ -580,3 +580,9 @@ package ast
 //@   ensures  found: result.1 == (exists i: int :: 0 <= i && i < len(structType.Fields) && structType.Fields[i].Name == name)
 //@   loop 0:
 //@     invariant none: forall i: int :: 0 <= i && i <= $i ==> structType.Fields[i].Name != name
+//
+// Schemas.Locate: the first schema of a package (a read-only function of the schemas).
+//@ func Schemas.Locate
+//@   property C05
+//@   pure
+//@   modifies nothing
